@@ -9815,6 +9815,7 @@ bool SoPlexBase<R>::writeDualFileReal(const char* filename, const NameSet* rowNa
                                       const NameSet* colNames, const DIdxSet* intVars, const bool writeZeroObjective) const
 {
    SPxLPBase<R> dualLP;
+   dualLP.setTolerances(this->_tolerances);
    _realLP->buildDualProblem(dualLP);
    dualLP.setOutstream(spxout);
 
